@@ -490,6 +490,8 @@ impl<'a> TrigramIter<'a> {
         Some(gram)
     }
 }
+// @item rust/core/src/store/mod.rs :: static DEFAULT_LIMIT
+pub const DEFAULT_LIMIT: usize = 10;
 // @item rust/core/src/store/record.rs :: struct Record
 pub struct Record {
     pub ix: usize,
@@ -624,8 +626,6 @@ pub fn cmp_counts(__a: &(usize, &usize), __b: &(usize, &usize)) -> (ret: Orderin
     let (_, count2) = __b;
     count2.cmp(count1)
 }
-// @item rust/core/src/store/mod.rs :: static DEFAULT_LIMIT
-pub const DEFAULT_LIMIT: usize = 10;
 // @item rust/core/src/store/store.rs :: struct Store
 pub struct Store {
     pub next_ix: usize,
